@@ -166,6 +166,9 @@ type CertCase struct {
 	Policies   [][]int
 	Vendor     []VendorExt
 	Trailing   []byte
+	// KeyExp: when > 0, the subject is the RSA subject key's modulus under this public exponent (only
+	// for certificates issued by another key: no private key is needed for the subject)
+	KeyExp int64
 	// ExtOrder: 0 = the order crypto/x509 emits; otherwise the seed of a permutation of the extensions
 	ExtOrder int
 }
@@ -210,6 +213,10 @@ func genCert(t *rapid.T) CertCase {
 		c.SignerKey = rapid.SampledFrom([]string{"rsa2048a", "rsa1024b", "rsa1536"}).Draw(t, "rsaSigner")
 	default:
 		c.SignerKey = rapid.SampledFrom([]string{"p256a", "p384b", "p521a"}).Draw(t, "ecSigner")
+	}
+	if c.SignerKey != "" && rapid.IntRange(0, 5).Draw(t, "oddExp") == 2 {
+		// RSA public exponents other than 65537: small, and beyond 31 / 32 bits (a positive INTEGER of any size is well-formed)
+		c.KeyExp = rapid.SampledFrom([]int64{3, 17, 65539, 1<<31 - 1, 1 << 31, 1<<32 + 1, 1<<40 + 15, 1<<62 + 1}).Draw(t, "keyExp")
 	}
 	signer := c.SignerKey
 	if signer == "" {
@@ -373,7 +380,11 @@ func (c CertCase) der() ([]byte, error) {
 	if c.SignerKey != "" {
 		parent, signer = signerCert(c.SignerKey), c.SignerKey
 	}
-	der, err := x509.CreateCertificate(rand.Reader, tpl, parent, vh.PublicOf(c.SubjectKey), vh.Key(signer))
+	var subjectPub any = vh.PublicOf(c.SubjectKey)
+	if rp, isRSA := subjectPub.(*rsa.PublicKey); isRSA && c.KeyExp > 0 && c.SignerKey != "" {
+		subjectPub = &rsa.PublicKey{N: rp.N, E: int(c.KeyExp)}
+	}
+	der, err := x509.CreateCertificate(rand.Reader, tpl, parent, subjectPub, vh.Key(signer))
 	if err != nil || c.ExtOrder == 0 {
 		return der, err
 	}
@@ -398,7 +409,7 @@ func (c CertCase) der() ([]byte, error) {
 	}
 	tpl2 := *tpl
 	tpl2.ExtraExtensions = exts
-	return x509.CreateCertificate(rand.Reader, &tpl2, parent, vh.PublicOf(c.SubjectKey), vh.Key(signer))
+	return x509.CreateCertificate(rand.Reader, &tpl2, parent, subjectPub, vh.Key(signer))
 }
 
 func pubEqual(a, b any) bool {
@@ -597,7 +608,7 @@ func execCert(c CertCase) (vh.Outcome, error) {
 
 func TestC16ParseAgree(t *testing.T) {
 	vh.Run(t, vh.Spec[CertCase]{Property: "C16", Name: "TestC16ParseAgree",
-		Rule: "certificates from x509.CreateCertificate: RSA 1024..2048 (3072/4096 in thorough; sizes not divisible by 8) and P-256/384/521 subject keys; self-signed or issued by RSA / ECDSA CAs with PKCS#1, PSS and ECDSA signature algorithms; serials to 20 bytes; names with UTF-8 attributes; validity 1950..9999 incl. the UTCTime/GeneralizedTime edge; basic constraints, key usage, key ids, SAN dns/email/ip, EKU known+unknown, policies, vendor OIDs 1.3.6.1.4.1.41482.3.x critical or not (serial extension well-formed or arbitrary); half of the certificates carry their extensions in a permuted (or reversed) order. Oracle: crypto/x509 accepts => lenient parser accepts and agrees on Raw, RawTBS, SPKI, names (raw and parsed), key, signature, algorithms, serial, validity, version, extension list; DER+trailing bytes refused, also when the trailing bytes are a complete certificate; NULL-less RSA variant (lengths rewritten) accepted with the same fields; ModHex of the parsed certificate judged by the reference rendering. Non-trivial: >=2 extensions or a NULL-less variant.",
+		Rule: "certificates from x509.CreateCertificate: RSA 1024..2048 (3072/4096 in thorough; sizes not divisible by 8; public exponent 65537 or, for issued certificates, 3 / 17 / 65539 / 2^31-1 / 2^31 / 2^32+1 / 2^40+15 / 2^62+1) and P-256/384/521 subject keys; self-signed or issued by RSA / ECDSA CAs with PKCS#1, PSS and ECDSA signature algorithms; serials to 20 bytes; names with UTF-8 attributes; validity 1950..9999 incl. the UTCTime/GeneralizedTime edge; basic constraints, key usage, key ids, SAN dns/email/ip, EKU known+unknown, policies, vendor OIDs 1.3.6.1.4.1.41482.3.x critical or not (serial extension well-formed or arbitrary); half of the certificates carry their extensions in a permuted (or reversed) order. Oracle: crypto/x509 accepts => lenient parser accepts and agrees on Raw, RawTBS, SPKI, names (raw and parsed), key, signature, algorithms, serial, validity, version, extension list; DER+trailing bytes refused, also when the trailing bytes are a complete certificate; NULL-less RSA variant (lengths rewritten) accepted with the same fields; ModHex of the parsed certificate judged by the reference rendering. Non-trivial: >=2 extensions or a NULL-less variant.",
 		Gen:  genCert, Exec: execCert})
 }
 
@@ -920,10 +931,13 @@ func execPEM(c PEMCase) (vh.Outcome, error) {
 
 func TestC16PEM(t *testing.T) {
 	vh.Run(t, vh.Spec[PEMCase]{Property: "C16", Name: "TestC16PEM",
-		Rule: "PEM bundles of 0..5 certificates drawn from the seed corpus, with leading text, text between blocks, PEM headers, trailing whitespace, and (negatively) trailing non-space garbage. Oracle: n>=1 => exactly n certificates in order, Raw-identical, and the single-certificate entry point returns the first; trailing garbage => error; a block whose body is two concatenated certificates (trailing data inside the block) => error; whitespace-only => no certificates and no error; leading text without certificates => either outcome. Non-trivial: >=2 certificates, or one with decoration.",
+		Rule: "PEM bundles of 0..5 (one in 40: 16..257) certificates drawn from the seed corpus, with leading text (tool output lines incl. ones starting with the digit 0, a hex dump line, dashes, a byte-order mark; every leading line ends with a newline, as the PEM armour must start a line), text between blocks, PEM headers, trailing whitespace, and (negatively) trailing non-space garbage. Oracle: n>=1 => exactly n certificates in order, Raw-identical, and the single-certificate entry point returns the first; trailing garbage => error; a block whose body is two concatenated certificates (trailing data inside the block) => error; whitespace-only => no certificates and no error; leading text without certificates => either outcome. Non-trivial: >=2 certificates, or one with decoration.",
 		Gen: func(t *rapid.T) PEMCase {
 			c := PEMCase{}
 			n := rapid.IntRange(0, 5).Draw(t, "n")
+			if rapid.IntRange(0, 40).Draw(t, "manyBlocks") == 19 {
+				n = rapid.SampledFrom([]int{16, 33, 64, 100, 257}).Draw(t, "nMany") // nothing bounds the number of blocks in a bundle
+			}
 			for i := 0; i < n; i++ {
 				c.Certs = append(c.Certs, rapid.IntRange(0, len(seedCorpus())-1).Draw(t, fmt.Sprintf("c%d", i)))
 				if rapid.IntRange(0, 3).Draw(t, fmt.Sprintf("hasB%d", i)) == 0 {
@@ -936,7 +950,9 @@ func TestC16PEM(t *testing.T) {
 				// text after the last block is "trailing", handled separately
 				c.Between[n-1] = ""
 			}
-			c.Lead = rapid.SampledFrom([]string{"", "", "Bag Attributes\n  friendlyName: x\n", "# leading comment\n", "\n\n", "subject=CN=Yubico PIV Attestation\n"}).Draw(t, "lead")
+			c.Lead = rapid.SampledFrom([]string{"", "", "Bag Attributes\n  friendlyName: x\n", "# leading comment\n", "\n\n", "subject=CN=Yubico PIV Attestation\n",
+				// explanatory text as openssl / piv tools print it in front of the block: digits, a DER-looking first byte ('0' = 0x30), dashes
+				"0 s:CN = Yubico PIV Attestation\n   i:CN = Yubico PIV Root CA Serial 263751\n", "01:02:03 slot 9a\n", "0\n", "00000000  30 82 03 17\n", "-----\n", "--- certificate 1 ---\n", "Certificate:\n    Data:\n        Version: 3 (0x2)\n", "\xef\xbb\xbf\n", "\r\n", " \t\n", "-----BEGIN NOTHING\n"}).Draw(t, "lead")
 			c.TrailWS = rapid.SampledFrom([]string{"", "", "\n", " \t\r\n", "\n\n\n"}).Draw(t, "trailWS")
 			if rapid.IntRange(0, 4).Draw(t, "hasGarbage") == 0 {
 				c.Garbage = rapid.SampledFrom([]string{"x", "garbage\n", "-----BEGIN CERTIFICATE-----\n", "-----BEGIN CERTIFICATE-----\nAAAA\n", "\x00", "-----END CERTIFICATE-----\n"}).Draw(t, "garbage")
